@@ -14,6 +14,17 @@ B3 = ['b0', 'b1', 'b2']
 M3 = ['m0', 'm1', 'm2']
 AQ = ['alpha', 'beta', 'thr']
 ORDERS = list(range(7))
+# sampling rates whose period is not a multiple of 1e-4 s (and some that are): the step configured through frequency=
+FREQS = [30.0, 60.0, 75.0, 128.0, 256.0, 333.0, 100.0, 50.0, 1000.0]
+
+
+def _ctors(F):
+    """constructors (frequency=...) of every estimator with a dead-reckoning / prediction step"""
+    return [lambda **k: F.AngularRate(**k), lambda **k: F.Madgwick(**k), lambda **k: F.Mahony(**k), lambda **k: F.AQUA(**k),
+            lambda **k: F.EKF(magnetic_ref=[1.0, 0.0, 1.0], **k), lambda **k: F.ROLEQ(weights=np.ones(2), magnetic_ref=[1.0, 0.0, 1.0], **k)]
+
+
+CTOR_NAMES = ['AngularRate', 'Madgwick', 'Mahony', 'AQUA', 'EKF', 'ROLEQ']
 
 LEVEL_TEXT = ("Coq theorems over the regenerated AngularRate.update ('closed'; 'series' for each order 0..6), the null-accelerometer "
               "steps of Madgwick/Mahony/AQUA, EKF.f, ROLEQ.attitude_propagation and angular_velocities: closed form = axis-angle "
@@ -88,14 +99,15 @@ def targets():
            "AngularRate(gyr=[g], Dt=0.05, method='integration').Q[0]"),
         mk('angvel', P + Q, lambda A, v: A.QuaternionArray(v.mat([P, Q])).angular_velocities(0.01)[0],
            'QuaternionArray([p, q]).angular_velocities(0.01)[0]'),
+        mk('Dt', ['u'], lambda A, v: [[c(frequency=f).Dt for f in FREQS] for c in _ctors(F(A))],
+           'the time step each estimator derives from frequency= (concrete awkward rates; u is an unused dummy input)'),
     ]
     return tg
 
 
 STAGES = [['C08_lib.v'],
           ['C08_closed.v', 'C08_series.v', 'C08_series5.v', 'C08_series6.v', 'C08_bounds.v', 'C08_deadreck.v', 'C08_integration.v'],
-          ['C08.v', ('C08_integration_refuted.v', {'finding': 'AngularRate-integration/not-a-rotation-integral'}),
-           ('C08_margdt_refuted.v', {'finding': 'Madgwick.updateMARG/mag-null-delegation-drops-dt'})]]
+          ['C08.v', ('C08_integration_refuted.v', {'finding': 'AngularRate-integration/not-a-rotation-integral'})]]
 
 
 # ------------------------------------------------------------------------------------------
@@ -243,6 +255,7 @@ def correspondence(ctx):
     gc = [{'g0': float(w[0]), 'g1': float(w[1]), 'g2': float(w[2])} for _, _, w, _ in cs] + [{'g0': 4.0, 'g1': 4.0, 'g2': 0.0}, {'g0': 0.0, 'g1': 0.0, 'g2': 0.0}]
     ctx.correspond('C08_integration', gc,
                    lambda c: ahrs.filters.AngularRate(gyr=np.array([[c['g0'], c['g1'], c['g2']]]), Dt=0.05, method='integration').Q[0], tol_ulp=128)
+    ctx.correspond('C08_Dt', [{'u': 0.0}, {'u': 1.5}], lambda c: [[k(frequency=f).Dt for f in FREQS] for k in _ctors(ahrs.filters)], tol_ulp=1)
     ctx.correspond('C08_angvel', two,
                    lambda c: ahrs.QuaternionArray(np.array([[c[k] for k in P], [c[k] for k in Q]])).angular_velocities(0.01)[0], tol_ulp=128)
 
@@ -305,7 +318,7 @@ def o_closed(inp):
         a = ahrs.filters.AngularRate(frequency=1.0 / dt)
         u1 = np.asarray(a.update(q0.copy(), w.copy()), float)
         u2 = np.asarray(a.update(q0.copy(), w.copy()), float)
-        r = cm.qmul(q0, _rot(w, a.Dt))
+        r = cm.qmul(q0, _rot(w, dt))
         if cm.maxabs(u1, r) > 1e-12 or cm.maxabs(u2, u1) > 0:
             return {'tag': 'update-closed/frequency-or-second-call', 'observed': u1, 'expected': r}
     return None
@@ -450,6 +463,60 @@ def o_deadreck(inp):
     return None
 
 
+def _dr_ref(q, w, dt, N):
+    for _ in range(N):
+        d = q + 0.5 * dt * cm.qmul(q, np.array([0.0, *w]))
+        q = d / np.linalg.norm(d)
+    return q
+
+
+def o_stepcfg(inp):
+    """the time step configured in every documented way — frequency= (rates whose period is not a round decimal), Dt=,
+    per-call dt= — gives the same constant-rate result: AngularRate (update loop and driver) = q0 (x) axis-angle(rate x N/f),
+    the filters' null-accelerometer steps (update loop and batch constructor) = N first-order steps of size 1/f; elapsed
+    time and step are computed here from f, never read back from the object; and obj.Dt * obj.frequency == 1"""
+    import ahrs
+    F = ahrs.filters
+    q0, w, f, N = np.array(inp['q0'], float), np.array(inp['w'], float), float(inp['f']), int(inp['N'])
+    mode = inp.get('mode', 'frequency')
+    step = 1.0 / f
+    kw = {'frequency': f} if mode == 'frequency' else ({'Dt': step} if mode == 'Dt' else {})
+    call = {'dt': step} if mode == 'dt' else {}
+    if mode != 'dt':
+        for name, c in zip(CTOR_NAMES, _ctors(F)):
+            o = c(**kw)
+            if abs(o.Dt * f - 1.0) > 1e-15 or (mode == 'frequency' and o.frequency != f):
+                return {'tag': f'{name}.__init__/Dt-not-1-over-frequency-{mode}', 'observed': float(o.Dt), 'expected': step}
+    tol = 1e-12 * (N + 1)
+    ref = cm.qmul(q0, _rot(w, N / f))
+    ar = F.AngularRate(**kw)
+    for method in ('closed', 'series'):
+        q = q0.copy()
+        for _ in range(N):
+            q = np.asarray(ar.update(q, w.copy(), method=method, order=6, **call), float)
+        if cm.maxabs(q, ref) > tol + (0 if method == 'closed' else 2e-8 * N):
+            return {'tag': f'AngularRate.update-{method}/constant-rate-{mode}', 'observed': q, 'expected': ref}
+    if mode != 'dt':
+        Qd = np.asarray(F.AngularRate(gyr=np.tile(w, (N + 1, 1)), q0=q0.copy(), method='closed', **kw).Q, float)
+        if Qd.shape != (N + 1, 4) or cm.maxabs(Qd[N], ref) > tol:
+            return {'tag': f'AngularRate.Q-closed/constant-rate-{mode}', 'observed': Qd[N] if Qd.shape == (N + 1, 4) else list(Qd.shape), 'expected': ref}
+    dref = _dr_ref(q0.copy(), w, step, N) if np.any(w) else q0
+    z3 = np.zeros(3)
+    for name, cls in (('Madgwick', F.Madgwick), ('Mahony', F.Mahony), ('AQUA', F.AQUA)):
+        conj = cm.qconj if name == 'AQUA' else (lambda x: x)
+        o = cls(**kw)
+        q = conj(q0.copy())
+        for _ in range(N):
+            q = np.asarray(o.updateIMU(q, w.copy(), z3.copy(), **call), float)
+        if q.shape != (4,) or cm.maxabs(conj(q), dref) > tol:
+            return {'tag': f'{name}.updateIMU/acc-null-steps-{mode}', 'observed': conj(q), 'expected': dref}
+        if mode != 'dt' and name != 'AQUA':          # the batch constructor (AQUA's needs a valid first sample)
+            Qb = np.asarray(cls(gyr=np.tile(w, (N + 1, 1)), acc=np.zeros((N + 1, 3)), q0=q0.copy(), **kw).Q, float)
+            if Qb.shape != (N + 1, 4) or cm.maxabs(Qb[N], dref) > tol:
+                return {'tag': f'{name}.Q/acc-null-steps-{mode}', 'observed': Qb[N] if Qb.shape == (N + 1, 4) else list(Qb.shape), 'expected': dref}
+    return None
+
+
 def o_angvel(inp):
     """angular velocities recovered from a closed-form sequence are (2/dt) sin(h) axis exactly, and integrating them back
     reproduces the sequence within the accumulated h - sin h <= h^3/6 per step"""
@@ -498,7 +565,7 @@ def o_integration(inp):
     return None
 
 
-ORACLES = {'closed': o_closed, 'series': o_series, 'deadreck': o_deadreck, 'angvel': o_angvel, 'integration': o_integration}
+ORACLES = {'stepcfg': o_stepcfg, 'closed': o_closed, 'series': o_series, 'deadreck': o_deadreck, 'angvel': o_angvel, 'integration': o_integration}
 
 
 def search(ctx, scale):
@@ -531,6 +598,15 @@ def search(ctx, scale):
                 Wt = (w[None, :] * (1 + 0.5 * np.sin(np.arange(Na))[:, None]) + 0.3 * np.linalg.norm(w) * rng.standard_normal((Na, 3))).tolist()
             inp = {'q0': q.tolist(), 'W': Wt, 'dt': dt, 'N': Na}
             ctx.check('angvel', inp, cm_call2(o_angvel, inp, 'angular_velocities'), nontrivial_key=rk(q, w, [dt, Na]))
+    # the step configured through frequency= / Dt= / dt= at awkward sampling rates
+    FS = FREQS + [44.1, 59.94, 7.0]
+    for i in range(len(FS) * (1 if scale == 1 else 3)):
+        f = FS[i % len(FS)]
+        region, q, w, _ = cs[(5 * i + 3) % len(cs)]
+        w = w * min(1.0, 0.5 * f / max(np.linalg.norm(w), 1e-9))          # keep |w|/f <= 0.5 rad per step
+        mode = ('frequency', 'frequency', 'Dt', 'dt')[i % 4] if i >= len(FREQS) else 'frequency'
+        inp = {'q0': q.tolist(), 'w': w.tolist(), 'f': f, 'N': [300, 7, 64, 1, 150][i % 5], 'mode': mode}
+        ctx.check('stepcfg', inp, cm_call2(o_stepcfg, inp, 'step-configuration'), nontrivial_key=(f, mode, inp['N']))
     # exact zeros, other containers / dtypes with exactly representable values, the corners of the range
     e = [1.0, 0.0, 0.0, 0.0]
     specials = [
